@@ -214,9 +214,7 @@ PROPS = {
             "De.* mirrors de.rs line by line for the IDLValue / IgnoredAny visitors including every add_cost argument, the x50 penalty, back-tracking (+10, skip) and the lazily merged type table size charged by check_subtype",
         ],
         "assumptions": ["native visitors (derive-generated) have their own call pattern and cost; C08's corpus run checks quota neutrality for them on the implementation only"],
-        "partial": [
-            "proved about the accounting primitive: only quota errors, no state touched but the counters, monotone in each quota, amount independent of the quota, x50/x1 split while untyped, decoding-only when typed; the lock-step simulation lifting these to whole messages and the upper bound against the documented cost model are not yet theorems",
-        ],
+        "partial": ["that the charged cost bounds the work (time, allocation) of the real decoder is argued from the per-step cost lemmas, not proved; monotonicity in the other direction (a larger quota never turns success into failure) is established by the metamorphic oracle on the implementation; theorems now cover neutrality for whole messages: a metered success is reproduced, value for value, by the unmetered run, and two succeeding quota configurations agree"],
     },
     "C01": {
         "profiles": ["debug"],
